@@ -114,9 +114,10 @@ def real_envelope(n: int, interval_s: float, delay_s: float, thr: float):
 class Cfg:
     """One cluster configuration, all durations in ticks of unit_ns nanoseconds."""
 
-    def __init__(self, n, I, S, K, D, unit_ns, thr=8.0, Lo=None, Hi=None, scripted=False, offsets=None):
+    def __init__(self, n, I, S, K, D, unit_ns, thr=8.0, Lo=None, Hi=None, scripted=False, offsets=None, window=None):
         self.n, self.I, self.S, self.K, self.D, self.unit_ns, self.thr = n, I, S, K, D, unit_ns, thr
         self.scripted = scripted
+        self.window = window        # max_sample_size of the (real) detectors; None = what the protocol builds
         self.offsets = list(offsets) if offsets else [0] * n
         self.interval_s = exact_seconds(I * unit_ns)
         self.susp_s = exact_seconds(S * unit_ns)
@@ -181,6 +182,13 @@ class Cluster:
                 for info in nd._members.values():
                     det = ScriptedDetector(threshold=cfg.thr, initial_interval=cfg.interval_s)
                     info.detector = det
+        elif cfg.window:
+            # the real detector with a small interval window (a documented constructor parameter the protocol
+            # does not expose): the window overflows after a few heartbeats instead of after 200
+            for nd in self.nodes.values():
+                for info in nd._members.values():
+                    info.detector = PhiAccrualDetector(threshold=cfg.thr, max_sample_size=cfg.window,
+                                                       initial_interval=cfg.interval_s)
         self.steps = []
         self.notes = []             # python-level observations outside the step vocabulary
         self.shuffle_ctx = None     # (node index, kind) of the handler being run
